@@ -232,6 +232,8 @@ func checkC19(c *Ctx) {
 		rk.Check(ok && has, execF.Name(), "store:Statement.Vars", pos, "Vars cleared only when not DryRun", "Statement.Vars is cleared in Execute even in DryRun mode")
 	}
 
+	// a raw statement keeps its text and values through every derivation (dry run or not)
+	checkCloneSQL(c, rk)
 	checkC19Readers(c)
 
 	// ---- C19.subquery ----
